@@ -887,6 +887,18 @@ func HostileValue(r *wk.Rand) (string, any) {
 		{"map-string-any-empty", map[string]any{}},
 		{"map-any-any-empty", map[any]any{}},
 		{"map-array-key", map[any]any{[1]int{1}: "a"}},
+		{"map-named-string-keys", map[namedString]any{"a": int64(1)}},
+		{"map-named-string-keys-empty", map[namedString]any{}},
+		{"map-NamedStr-keys", map[NamedStr]string{"a": "b"}},
+		{"map-named-int-keys", map[namedInt]any{1: "a"}},
+		{"map-bool-keys-typed", map[bool]any{true: "a"}},
+		{"map-stringer-keys", map[fmt.Stringer]any{}},
+		{"map-struct-keys", map[struct{ A int }]any{{1}: "a"}},
+		{"map-ptr-keys", map[*int64]any{&x: "a"}},
+		{"map-uint8-keys", map[uint8]int{1: 2}},
+		{"map-string-named-values", map[string]namedString{"a": "b"}},
+		{"list-named-strings", []namedString{"a"}},
+		{"list-of-typed-maps", []map[string]int{{"a": 1}}},
 		{"named-int", namedInt(4)},
 		{"named-float", namedFloat(4.5)},
 		{"named-bool", namedBool(true)},
